@@ -16,6 +16,7 @@ import (
 )
 
 type Clause struct {
+	AtReturn int // >= 0: applies only to the n-th return (source order); -1: every return
 	Label string
 	Props []string
 	Src   string
@@ -191,7 +192,7 @@ func (sp *Specs) loadFile(path, pkgPath string) error {
 		if i := strings.IndexAny(body, " \t"); i >= 0 {
 			first = body[:i]
 		}
-		if clauseKeywords[first] {
+		if clauseKeywords[first] || strings.HasPrefix(first, "ensures@") {
 			raws = append(raws, rawClause{body, ln})
 		} else {
 			if len(raws) == 0 {
@@ -214,7 +215,7 @@ func (sp *Specs) loadFile(path, pkgPath string) error {
 			if err != nil {
 				return nil, fail(err)
 			}
-			return &Clause{Label: lab, Props: props, Src: r, E: e, Where: where}, nil
+			return &Clause{AtReturn: -1, Label: lab, Props: props, Src: r, E: e, Where: where}, nil
 		}
 		switch kw {
 		case "package":
@@ -291,12 +292,22 @@ func (sp *Specs) loadFile(path, pkgPath string) error {
 			if cur == nil {
 				return fail(fmt.Errorf("clause %q outside a func block", kw))
 			}
+			atRet := -1
+			if strings.HasPrefix(kw, "ensures@") {
+				n, err := strconv.Atoi(kw[8:])
+				if err != nil {
+					return fail(fmt.Errorf("ensures@N: %v", err))
+				}
+				atRet = n
+				kw = "ensures"
+			}
 			switch kw {
 			case "requires", "ensures":
 				c, err := mkClause(rest)
 				if err != nil {
 					return err
 				}
+				c.AtReturn = atRet
 				if kw == "requires" {
 					cur.Requires = append(cur.Requires, c)
 				} else {
